@@ -18,6 +18,7 @@ RULE = ("dyadic refinement trees (midpoint splits; uniform/one-sided/graded/comp
         "distinct = digest(variant, level sequence, interval); non-trivial = non-complete tree or depth>=2")
 RULE += (" " + 'The observed set_grid is preceded by 0..2 other trees (mirror image of the same size, or unrelated) set and used on the SAME object, and integrate() is called before or after get_weights().')
 RULE += (" General intervals include short decimal end points; in 30% of the cases the caller reuses ONE pair of list objects (set_grid, modify in place, set_grid again).")
+RULE += (" Balanced grids are also built on general (short-decimal) intervals; one GlobalRombergGrid object serves 2-3 dimensions whose edges differ in length / position but carry the same tree shape.")
 REQUIRED = ["weight_count", "weights_sum_to_length", "linear_exact", "complete_grid_order", "balanced_weights_moments",
             "balanced_complete_order", "full_tree_superset", "full_tree_zero_or_two_children", "wrapper_cache_transparent",
             "integrate_equals_weighted_sum"]
@@ -212,6 +213,16 @@ def run_case(case, res):
             res.close("integrate_equals_weighted_sum", float(np.atleast_1d(val)[0]), ref, 1e-12 * max(1.0, abs(ref)) * 8,
                       "C11_integrate_differs_from_weights", "integrate(f) differs from sum w_i f(x_i)", cfg)
     elif gen == "balanced":
+        if rng.random() < 0.4:
+            # balanced grids on general intervals: short decimal end points (midpoints recomputed in another form differ in the last bit)
+            if rng.random() < 0.4:
+                a = rng.uniform(-2, 2)
+                b = a + rng.uniform(0.1, 3)
+            else:
+                a = rng.choice([0.1, -0.3, 0.2, 0.7, -1.1, 0.3, 1.9, -0.7])
+                b = a + rng.choice([0.6, 1.2, 1.1, 0.3, 0.9, 2.3])
+            cfg.update({"a": a, "b": b})
+            res.count("balanced_on_general_interval")
         cdepth = rng.choice([1, 1, 2, 3, 4, 5])
         xs, lv = balanced_tree(rng, a, b, rng.choice([0, 0, rng.randint(1, 14)]), complete_depth=cdepth)
         cfg.update({"n": len(xs), "levels": lv, "complete_depth": cdepth})
@@ -293,6 +304,23 @@ def run_case(case, res):
         simpson_grouped = cv == E.SliceContainerVersion.SIMPSON_ROMBERG and grouping != E.SliceGrouping.UNIT
         moments(res, w_a, xs, a, b, ("simpson_grouped_sum", "simpson_grouped_linear") if simpson_grouped else ("weights_sum_to_length", "linear_exact"),
                 "C11_moments:simpson_container_with_grouped_slices" if simpson_grouped else "C11_moments:wrapper", cfg)
+        # one wrapper object serves all dimensions of a box: the same tree shape on edges of different length / position
+        dd = rng.choice([2, 3])
+        boxes = [(a, b)]
+        for _ in range(dd - 1):
+            a2, b2 = rng.choice(FRIENDLY)
+            if (b2 - a2) == (b - a) and rng.random() < 0.7:
+                b2 = a2 + 2 * (b2 - a2)
+            boxes.append((a2, b2))
+        gm1 = G.GlobalRombergGrid(np.array([x[0] for x in boxes]), np.array([x[1] for x in boxes]), do_cache=True,
+                                  slice_grouping=grouping, slice_version=sv, container_version=cv)
+        for k, (ak, bk) in enumerate(boxes):
+            xk = trees.same_shape_on(lv, ak, bk) if k > 0 else list(xs)
+            with quiet:
+                wk = list(map(float, gm1.compute_1D_quad_weights(list(xk), ak, bk, k, grid_levels_1D=list(lv))))
+            moments(res, wk, xk, ak, bk, ("simpson_grouped_sum", "simpson_grouped_linear") if simpson_grouped else ("wrapper_multidim_sum", "wrapper_multidim_linear"),
+                    "C11_moments:simpson_container_with_grouped_slices" if simpson_grouped else "C11_moments:wrapper:dimension_%s" % ("0" if k == 0 else "ge1"),
+                    dict(cfg, box=boxes, dim=k))
     res.hash = digest(cfg)
     res.nontrivial = (not complete) or depth >= 2
     res.states.add(digest([gen, lv]))
